@@ -16,11 +16,21 @@
                     widened on the referenced definition).
      C06_full_top : whole documents: the first module that is not a `celldefine module, if nobody instantiates it,
                     is the top (for a root anywhere in the file: C06_top_clause_holds, on the module list).
-     NOT proved - C06_full stays a Definition: the composition over a whole document, i.e. (i) that [visible] (every
-     connection made so far shows in the value), a hypothesis of C06_full_instance_nets that the theorem re-establishes,
-     holds in every reachable state; (ii) the same frame / stability argument for wire declarations, assigns and
-     instance creation, and for the definitions other than the one being read; (iii) the induction over the modules
-     of a document (forward references, never-declared modules) and the positional maps deferred to the end of the file.
+     C06_visible_reachable    : [visible] - every connection made shows in the value - is an invariant of EVERY state
+                    the reader reaches (all header entries, body items, module boundaries, the end of the file).
+     C06_frame_body_items / C06_frame_end_of_file : frames for wire declarations, assigns, instance creation, port maps
+                    of any definition, defparams, add_blackbox_definitions, the deferred positional maps - in EVERY
+                    definition held, what is on a net bit stays on it (everything except a re-basing declaration).
+     C06_full_instance_persists / C06_full_last_module_instance : the induction over the modules of a document and the
+                    items of a body, for the connection clause: in the last module of a document (a flat netlist), the
+                    value elab returns shows bit k of every expression of a named port map on bit k of the port.
+     NOT proved - C06_full stays a Definition: (i) the frame for a RE-BASING declaration (a port declaration
+     "input [7:4] a" after "module m(a)", an ANSI header port of a module instantiated earlier in the file): labels
+     legitimately move there, so modules other than the last need a statement in positions from the low end or the
+     restriction to declarations based at 0 as a reachable-state invariant; (ii) the composition of the deferred
+     positional maps over the positions of one instance; (iii) the remaining clauses of denote at document level
+     (modules, ports, cables, instance parameters / attributes, assigns are proved per construct only) and exactness
+     (that the nets hold nothing else).
    Character-level tokenisation and the recursive descent from tokens to the document value are not modelled. *)
 From Coq Require Import String.
 From Coq Require Import List ZArith Bool Permutation Lia.
